@@ -100,7 +100,22 @@ fn check_json_data<T: FloatT>(
     P.check_format().map_err(|e| invalid(format!("P : {}", e)))?;
     A.check_format().map_err(|e| invalid(format!("A : {}", e)))?;
 
-    let conedim = cones.iter().fold(0, |acc, cone| acc + cone.nvars());
+    // the cone dimensions come from the file: add them up without overflowing
+    let mut conedim: usize = 0;
+    for cone in cones {
+        let dim = match cone {
+            #[cfg(feature = "sdp")]
+            SupportedConeT::PSDTriangleConeT(d) => d
+                .checked_add(1)
+                .and_then(|d1| d.checked_mul(d1))
+                .map(|v| v >> 1),
+            SupportedConeT::GenPowerConeT(α, dim2) => α.len().checked_add(*dim2),
+            _ => Some(cone.nvars()),
+        };
+        conedim = dim
+            .and_then(|d| conedim.checked_add(d))
+            .ok_or_else(|| invalid("inconsistent problem dimensions".to_string()))?;
+    }
     if b.len() != A.nrows()
         || conedim != b.len()
         || q.len() != A.ncols()
